@@ -1282,3 +1282,19 @@ def _group_attr_scope(repo, ob, failure):
 
 
 GENERATORS.insert(0, ("C15.push.attributes", _group_attr_scope))
+
+
+def _defaults_on_control(repo, ob, failure):
+    """<defaults> do not turn into variable assignments: a wildcard default is not merged into <var> / <reuse>"""
+    import re as _re
+    doc = '<svg><var stroke="blue"/><defaults><_ stroke="red"/></defaults><var b="1"/><text text="[$stroke]"/></svg>'
+    r = run_svgdx(repo, doc)
+    if r["rc"] != 0:
+        return None
+    m = _re.search(r"\[[^\]]*\]", r["out"].split("</style>")[-1])
+    if not m or m.group(0) != "[blue]":
+        return {"input": doc, "observed": "$stroke is %s after an unrelated <var b=..>" % (m.group(0) if m else "?"), "expected": "[blue]"}
+    return None
+
+
+GENERATORS.insert(0, ("C15.defaults.", _defaults_on_control))
